@@ -99,6 +99,9 @@ def cases(tier: str) -> list[dict[str, Any]]:
             for name, ws in docs:
                 cs.append(dict(key=f"doc/{ctx}/sem={sem}/{name}", kind="doc", ctx=ctx, sem=sem, words=ws))
             cs.append(dict(key=f"doc/{ctx}/sem={sem}/hard", kind="doc", ctx=ctx, sem=sem, segs=[V.toks(3), V.toks(3, 10)], brk="hard"))
+            for gname, pair in (("tags", ["{% qza %}", "{% qzb %}"]), ("comments", ["<!-- qza -->", "<!-- qzb -->"])):
+                ws = V.toks(2) + pair + V.toks(2, 10)
+                cs.append(dict(key=f"doc/{ctx}/sem={sem}/adjacent-{gname}", kind="doc", ctx=ctx, sem=sem, words=ws, glued=[2]))
     # vacuity twins: a deliberately too-strong bound must be refuted and reproduce
     cs.append(dict(key="twin/wpl", kind="wpl", words=V.toks(4), md=True, splitter="default", twin=True))
     cs.append(dict(key="twin/doc", kind="doc", ctx="bullet", sem=False, words=V.toks(4), twin=True))
@@ -140,10 +143,10 @@ def _lines_per_segment(infos: list[WC.LineInfo], breaks: dict[int, str]) -> list
 
 
 def _check_lines(env: Any, case: dict[str, Any], words: list[str], lines: list[str], W: Any, first_ind: str, next_ind: str,
-                 first_off: Any, next_off: Any, fill: bool, breaks: dict[int, str] | None = None, tag: str = "") -> None:
+                 first_off: Any, next_off: Any, fill: bool, breaks: dict[int, str] | None = None, tag: str = "", glued: set[int] | None = None) -> None:
     sentence_ends = None if fill else {i for i, w in enumerate(words) if w[-1:] in ".?!"}
     try:
-        infos = WC.read_lines(words, lines, first_ind, next_ind, breaks)
+        infos = WC.read_lines(words, lines, first_ind, next_ind, breaks, glued)
     except WC.Mismatch as m:
         env.prove(False, f"{tag}lossless:{m.kind}", str(m))
         return
@@ -151,7 +154,7 @@ def _check_lines(env: Any, case: dict[str, Any], words: list[str], lines: list[s
         # vacuity witness: the (false) claim "no line ever holds two words" must be refuted and reproduce
         env.prove(all(inf.last == inf.first for inf in infos), "width-bound", "twin")
         return
-    WC.prove_wrap(env, env.len, infos, words, W, first_off, next_off, fill, breaks, tag, sentence_ends)
+    WC.prove_wrap(env, env.len, infos, words, W, first_off, next_off, fill, breaks, tag, sentence_ends, glued)
     # width <= 0: exactly one line per paragraph / kept-newline segment
     nseg = 1 + len(breaks or {})
     if len(lines) != nseg:
@@ -233,12 +236,13 @@ def run(env: Any, case: dict[str, Any]) -> Any:
         else:
             words = [env.text(w) for w in case["words"]]
             breaks = {}
-            plines = [" ".join(words)]
+            glued = set(case.get("glued") or [])
+            plines = ["".join(w + ("" if i in glued else " ") for i, w in enumerate(words)).rstrip(" ")]
         doc = env.text(K.embed(ctx, plines))
         out = reformat_text(doc, width=W, semantic=case["sem"], cleanups=False)
         lines = K.para_lines_of(ctx, out)
         fo, co = env.text(ctx.first_out), env.text(ctx.cont_out)
-        _check_lines(env, case, words, lines, W, fo, co, env.len(fo), env.len(co), fill=not case["sem"], breaks=breaks)
+        _check_lines(env, case, words, lines, W, fo, co, env.len(fo), env.len(co), fill=not case["sem"], breaks=breaks, glued=set(case.get("glued") or []))
         return out
     raise ValueError(kind)
 
